@@ -292,7 +292,8 @@ instance (range tag : List Str) : Decidable (extFilterDecl range tag) := by
 theorem filterCore_eq (r : Str) (rs : List Str) (s : Str) (ss : List Str)
     (hwf : WellFormedRange (r :: rs)) :
     Lang.filterCore (r :: rs) (s :: ss) =
-      (extFilterAlg (r :: rs) (s :: ss) && !(r :: rs == [star] && s :: ss == emptyText)) := by
+      if r :: rs == emptyText then s :: ss == emptyText
+      else (extFilterAlg (r :: rs) (s :: ss) && !(r :: rs == [star] && s :: ss == emptyText)) := by
   have h1 : ∀ x ∈ rs, x ≠ star := fun x hx => (hwf x hx).2
   have h2 : ∀ x ∈ rs, x ≠ [] := fun x hx => (hwf x hx).1
   unfold Lang.filterCore extFilterAlg
@@ -302,15 +303,21 @@ theorem filterCore_eq (r : Str) (rs : List Str) (s : Str) (ss : List Str)
   · subst hstar
     have : star.isEmpty = false := by decide
     cases rs with
-    | nil => cases ss <;> cases s <;> simp [emptyText, rfcLoop_nil, this]
+    | nil => cases ss <;> cases s <;> simp [emptyText, rfcLoop_nil, star]
     | cons x xs =>
       have hx : (x == star) = false := by simpa using h1 x (by simp)
       cases ss <;> cases s <;> simp [emptyText, rfcLoop_cons_nil, hx, this]
   · have hstar' : (r == star) = false := by simpa using hstar
-    by_cases hrs : r = s
-    · subst hrs
-      cases rs <;> cases ss <;> simp [hstar', emptyText, rfcLoop_nil]
-    · simp [hstar, hrs]
+    by_cases hre : r = []
+    · subst hre
+      cases rs with
+      | nil => cases ss <;> cases s <;> simp [emptyText]
+      | cons x xs => cases s <;> simp [emptyText, star]
+    · have hre' : r.isEmpty = false := by simpa using hre
+      by_cases hrs : r = s
+      · subst hrs
+        simp [hstar', hre', emptyText]
+      · simp [hstar, hrs, hre', emptyText]
 
 /-! ### Algorithm, declarative and positional forms -/
 
@@ -410,38 +417,31 @@ theorem extFilterDecl_iff_pos (range tag : List Str) :
 
 /-! ### The model against the C13 specification -/
 
-theorem wellFormedTag_cons {tag : List Str} (ht : WellFormedTag tag) :
-    ∃ s ss, tag = s :: ss ∧ (s = [] → ss = []) := by
-  rcases ht with h | ⟨hne, hall⟩
-  · exact ⟨[], [], h, fun _ => rfl⟩
-  · cases tag with
-    | nil => exact absurd rfl hne
-    | cons s ss => exact ⟨s, ss, rfl, fun hs => absurd hs (hall s (by simp))⟩
+theorem filterCore_nil_right (range : List Str) : Lang.filterCore range [] = false := by
+  unfold Lang.filterCore; split <;> simp_all
 
-theorem filterCore_eq_c13Match (range tag : List Str)
-    (hr : WellFormedRange range) (ht : WellFormedTag tag) :
+theorem filterCore_eq_c13Match (range tag : List Str) (hr : WellFormedRange range) :
     Lang.filterCore range tag = c13Match range tag := by
-  obtain ⟨s, ss, rfl, hs⟩ := wellFormedTag_cons ht
   cases range with
   | nil => exact absurd hr (by simp [WellFormedRange])
   | cons r rs =>
-    rw [filterCore_eq r rs s ss hr]
     unfold c13Match
     rw [stripWild_of_wellFormed _ hr]
-    by_cases he : r :: rs = emptyText
-    · simp only [emptyText, List.cons.injEq] at he
-      obtain ⟨rfl, rfl⟩ := he
-      by_cases hs' : s = []
-      · have := hs hs'; subst hs'; subst this
-        decide
-      · simp [extFilterAlg, emptyText, rfcLoop_nil, star, hs']
-    · by_cases hst : r :: rs = [star]
-      · simp only [List.cons.injEq] at hst
-        obtain ⟨rfl, rfl⟩ := hst
-        cases s <;> cases ss <;> simp [extFilterAlg, emptyText, rfcLoop_nil, star]
-      · have h1 : (r :: rs == emptyText) = false := by simpa using he
-        have h2 : (r :: rs == [star]) = false := by simpa using hst
-        simp [h1, h2]
+    cases tag with
+    | nil =>
+      rw [filterCore_nil_right]
+      simp [extFilterAlg, emptyText]
+    | cons s ss =>
+      rw [filterCore_eq r rs s ss hr]
+      by_cases he : (r :: rs == emptyText) = true
+      · simp [he]
+      · simp only [he, Bool.false_eq_true, if_false]
+        by_cases hst : (r :: rs == [star]) = true
+        · have h := eq_of_beq hst
+          simp only [List.cons.injEq] at h
+          obtain ⟨rfl, rfl⟩ := h
+          cases s <;> cases ss <;> simp [extFilterAlg, emptyText, rfcLoop_nil, star]
+        · simp [hst]
 
 theorem c13Match_stripWild (range tag : List Str) :
     c13Match (stripWild range) tag = c13Match range tag := by
@@ -451,36 +451,25 @@ theorem c13Match_stripWild (range tag : List Str) :
 theorem filterCore_stripWild_eq (r : Str) (rs : List Str) (s : Str) (ss : List Str)
     (hne : ∀ x ∈ rs, x ≠ []) :
     Lang.filterCore (stripWild (r :: rs)) (s :: ss) =
-      (extFilterAlg (r :: rs) (s :: ss) &&
+      if stripWild (r :: rs) == emptyText then s :: ss == emptyText
+      else (extFilterAlg (r :: rs) (s :: ss) &&
         !(stripWild (r :: rs) == [star] && s :: ss == emptyText)) := by
   have hwf := stripWild_wellFormed r rs hne
   rw [← extFilterAlg_stripWild (r :: rs)]
   exact filterCore_eq r _ s ss hwf
 
 theorem filterCore_stripWild_eq_c13Match (range tag : List Str)
-    (hne : range ≠ []) (htl : ∀ x ∈ range.tail, x ≠ []) (ht : WellFormedTag tag) :
+    (hne : range ≠ []) (htl : ∀ x ∈ range.tail, x ≠ []) :
     Lang.filterCore (stripWild range) tag = c13Match range tag := by
   cases range with
   | nil => exact absurd rfl hne
   | cons r rs =>
     rw [← c13Match_stripWild]
-    exact filterCore_eq_c13Match _ _ (stripWild_wellFormed r rs htl) ht
-
-theorem wellFormedTag_map_lower {tag : List Str} (ht : WellFormedTag tag) :
-    WellFormedTag (tag.map lower) := by
-  rcases ht with h | ⟨hne, hall⟩
-  · left; subst h; rfl
-  · right
-    refine ⟨by simpa using hne, ?_⟩
-    intro x hx
-    simp only [List.mem_map] at hx
-    obtain ⟨y, hy, rfl⟩ := hx
-    exact fun h => hall y hy ((lower_eq_nil y).1 h)
+    exact filterCore_eq_c13Match _ _ (stripWild_wellFormed r rs htl)
 
 theorem extendedFilter_eq_c13Match (w : Str → Str) (range tag : Str)
     (hw : splitOn 45 (w range) = stripWild (splitOn 45 range))
-    (hne : ∀ x ∈ (splitOn 45 range).tail, x ≠ [])
-    (ht : WellFormedTag (splitOn 45 tag)) :
+    (hne : ∀ x ∈ (splitOn 45 range).tail, x ≠ []) :
     Lang.extendedFilter w range tag =
       c13Match ((splitOn 45 range).map lower) ((splitOn 45 tag).map lower) := by
   unfold Lang.extendedFilter
@@ -491,7 +480,6 @@ theorem extendedFilter_eq_c13Match (w : Str → Str) (range tag : Str)
     rw [← List.map_tail, List.mem_map] at hx
     obtain ⟨y, hy, rfl⟩ := hx
     exact fun h => hne y hy ((lower_eq_nil y).1 h)
-  · exact wellFormedTag_map_lower ht
 
 /-! ### Decidability of the hypotheses (for examples) -/
 
